@@ -7,6 +7,7 @@ import (
 	"encoding/json"
 	"fmt"
 	"math"
+	"strconv"
 	"strings"
 	"testing"
 
@@ -265,6 +266,21 @@ func c17Check(s objSpec) fw.Outcome {
 	if m := checkShape("$", &s, v); m != "" {
 		return fw.Failf(label, "%s; output %q", m, base)
 	}
+	if s.Kind == "PointZ" {
+		// the one constructor that takes a third ordinate: it is written (null when not finite) and Z() returns it
+		z := float64(s.Z)
+		co := v.Get("coordinates")
+		if co == nil || co.Kind != jdoc.Array || len(co.Arr) != 3 {
+			return fw.Failf(label, "NewPointZ(.., %v): coordinates do not have three ordinates; output %q", z, base)
+		}
+		finite := !math.IsNaN(z) && !math.IsInf(z, 0)
+		if zt := co.Arr[2]; finite && (zt.Kind != jdoc.Number || mustFloat(zt.Num) != z) || !finite && zt.Kind != jdoc.Null {
+			return fw.Failf(label, "NewPointZ(.., %v): third ordinate written differently; output %q", z, base)
+		}
+		if got := obj.(*geojson.Point).Z(); got != z && !(math.IsNaN(got) && math.IsNaN(z)) {
+			return fw.Failf(label, "NewPointZ(.., %v).Z() = %v", z, got)
+		}
+	}
 	if s.Kind == "Feature" {
 		if m := c17Members(&s, v); m != "" {
 			return fw.Failf(label, "%s; members %q output %q", m, s.Members, base)
@@ -279,6 +295,14 @@ func c17Check(s objSpec) fw.Outcome {
 		feat += "/members"
 	}
 	return fw.OK(label+feat, nt)
+}
+
+func mustFloat(lit string) float64 {
+	f, err := strconv.ParseFloat(lit, 64)
+	if err != nil {
+		return math.NaN()
+	}
+	return f
 }
 
 func (s *objSpec) allMembers() string {
